@@ -149,6 +149,11 @@ fn region_positions(s: &Seed) -> Vec<(u64, Option<usize>)> {
 pub fn run(ctx: &mut Ctx) {
     ctx.rule("flips: EVERY single-bit flip inside every entry's data region and central CRC field of the small seed archives (all methods, ZipCrypto, AE-1/AE-2, crate-written and reference-built), each read with a caller-buffer schedule from {1,2,3,7,64,4096, zero-length interleaved} through the seekable and the streaming reader; damage: random multi-byte damage, truncated payloads (sizes adjusted) and payloads swapped between entries. Oracle: a read that reaches end-of-file without error has CRC(bytes)==crc32() unless the entry is an encrypted AE-2 entry; a flipped stored entry must fail. Non-trivial = the mutant still opens and the damaged entry was opened and read to a terminal state.");
     ctx.assume("AE-2 exemption applies to entries that are actually AES-encrypted (flag bit 0 + AE-2 record); an unencrypted entry that merely carries an AE-2 extra record is not exempt");
+    if let Some(c) = ctx.replay_case("fuzz_raw") {
+        let bytes = crate::util::unhex(c["bytes"].as_str().unwrap_or("")).unwrap_or_default();
+        ctx.replay_verdict = Some(Verdict::from_result(raw_invariant(&bytes)));
+        return;
+    }
     let seeds = seeds::small_seeds();
     let mut index: Vec<(usize, u64, Option<usize>)> = Vec::new();
     for (si, s) in seeds.iter().enumerate() {
@@ -299,5 +304,46 @@ fn seed_of(spec: &ArchiveSpec, b: crate::refzip::Built) -> Seed {
         stored_plain: spec.entries.iter().map(|e| e.method == 0).collect(),
         streamable: vec![true; spec.entries.len()],
         built: Some(b),
+    }
+}
+
+/// The CRC invariant on arbitrary bytes (password-less access only, so no AES exemption applies);
+/// same logic as the libFuzzer target fuzz_c04.
+pub fn raw_invariant(data: &[u8]) -> Result<(), String> {
+    let chunk = 1 + (data.len() % 61);
+    let r = catch(|| -> Result<(), String> {
+        if let Ok(mut za) = zip::ZipArchive::new(Cursor::new(data)) {
+            for i in 0..za.len().min(32) {
+                if let Ok(mut f) = za.by_index(i) {
+                    let declared = f.crc32();
+                    if let Ok(d) = drain(&mut f, &[chunk], 4 << 20) {
+                        let c = crypto::crc32(&d);
+                        if c != declared {
+                            return Err(format!("entry {i}: read completed, CRC {c:#x} != declared {declared:#x}"));
+                        }
+                    }
+                }
+            }
+        }
+        let mut cur = Cursor::new(data);
+        for _ in 0..32 {
+            match zip::read::read_zipfile_from_stream(&mut cur) {
+                Ok(Some(mut f)) => {
+                    let declared = f.crc32();
+                    if let Ok(d) = drain(&mut f, &[chunk], 4 << 20) {
+                        let c = crypto::crc32(&d);
+                        if c != declared {
+                            return Err(format!("stream: read completed, CRC {c:#x} != declared {declared:#x}"));
+                        }
+                    }
+                }
+                _ => break,
+            }
+        }
+        Ok(())
+    });
+    match r {
+        Ok(x) => x,
+        Err(_) => Ok(()), // panics on arbitrary bytes are C05's subject
     }
 }
